@@ -36,11 +36,11 @@ class OutOfFragment(Exception):
     """the pair cannot be serialised into the modelled fragment (counted, not reported)"""
 
 
-def build_case(P, Q, keyQ, depth, cap, plans=(), keyP=key_identity, temporal=True):
+def build_case(P, Q, keyQ, depth, cap, plans=(), keyP=key_identity, temporal=True, split_intervals=False):
     """-> (Gallina case literal, info).  plans: list of (plan on P, plan on Q-or-P parsed back, view 'P'|'Q')."""
     shared = Shared()
     nP, nQ = ViewNames(shared, keyP), ViewNames(shared, keyQ)
-    sP, sQ = IoSer(P, nP), IoSer(Q, nQ)
+    sP, sQ = IoSer(P, nP, split_intervals), IoSer(Q, nQ, split_intervals)
     try:
         rQ = sQ.render()
         # PDDL's universal supertype `object` exists in the re-read problem only: it denotes all objects on both sides
@@ -68,7 +68,8 @@ def build_case(P, Q, keyQ, depth, cap, plans=(), keyP=key_identity, temporal=Tru
             k *= len(list(P.objects(pp.type)))
         ninsts += k
     info = {"metricP": kP, "metricQ": kQ, "ids": shared.table(), "ninsts": ninsts,
-            "durative": len(sP.dactions), "timed_effects": len(P.timed_effects), "plans": len(pcs)}
+            "durative": len(sP.dactions), "timed_effects": len(P.timed_effects), "plans": len(pcs),
+            "tP": tP, "tQ": tQ}
     return body, info
 
 
@@ -88,8 +89,9 @@ class PyOracle:
     initial state, same applicable actions and successors on reachable states, same goal states).  `to_q` maps a P item
     (action / object / fluent) to the Q item or None."""
 
-    def __init__(self, P, Q, to_q):
+    def __init__(self, P, Q, to_q, type_name=None):
         self.P, self.Q, self.to_q = P, Q, to_q
+        self.type_name = type_name          # P user type -> name of the type in Q
         self.emP, self.emQ = P.environment.expression_manager, Q.environment.expression_manager
 
     def ground_fluents(self):
@@ -139,6 +141,16 @@ class PyOracle:
             sQ0 = simQ.get_initial_state()
         except Exception as e:  # noqa
             return {"oracle": "re-read problem cannot be simulated: %s" % str(e)[:120], "confirmed": True}
+        if self.type_name is not None:
+            for t in P.user_types:
+                try:
+                    tq = Q.user_type(self.type_name(t))
+                    oq = sorted(self.back_obj.get(o.name, "?" + o.name) for o in Q.objects(tq))
+                except Exception as e:  # noqa
+                    oq = ["<no such type: %s>" % str(e)[:40]]
+                op = sorted(o.name for o in P.objects(t))
+                if op != oq:
+                    return {"confirmed": True, "kind": "objects-differ", "type": t.name, "orig": op, "reread": oq}
         insts = []
         for a in P.actions:
             if not hasattr(a, "preconditions"):
@@ -271,13 +283,55 @@ def missing_domain_requirement(e):
     return m.group(1) if m else "?"
 
 
+def sexprs(text):
+    """a PDDL text as nested lists of lower-case tokens (comments removed)"""
+    import re
+    text = re.sub(r";[^\n]*", "", text.lower())
+    toks = re.findall(r"\(|\)|[^\s()]+", text)
+    stack, cur = [], []
+    for t in toks:
+        if t == "(":
+            stack.append(cur)
+            cur = []
+        elif t == ")":
+            if not stack:
+                break
+            parent = stack.pop()
+            parent.append(cur)
+            cur = parent
+        else:
+            cur.append(t)
+    return cur
+
+
+def has_repeated_arith_operand(*texts):
+    """(+ x x), (* x x), (- x x) or (/ x x) occurs in the text: pddl 0.4 drops the repeated operand of an arithmetic
+    operator (its operand flattening de-duplicates even for non-idempotent operators)"""
+    def walk(n):
+        if isinstance(n, list):
+            if n and n[0] in ("+", "*", "-", "/") and len(n) >= 3:
+                args = [json.dumps(x) for x in n[1:]]
+                if len(set(args)) < len(args):
+                    return True
+            return any(walk(x) for x in n)
+        return False
+    return any(walk(sexprs(t)) for t in texts if t)
+
+
 def diagnose(ctx, case, preamble=""):
     """the checker's own witness (failing kind, action sequence, instance), as printed by Coq"""
     return ctx.coq_show("run_check (%s)" % case, imports=IMPORTS, preamble=preamble)[:1500]
 
 
 def decode(code):
-    """code of Corr_C18.code -> (bisim part, temporal differs, plan failure, metrics structurally differ)"""
+    """code of Corr_C18.code -> (bisim part, temporal differs, plan failure, metrics structurally differ, states, bound)"""
+    size = code // 10000
+    code %= 10000
+    b, t, p, m = _decode(code)
+    return b, t, p, m, size // 100, size % 100
+
+
+def _decode(code):
     m = code // 4000
     code %= 4000
     p = code // 2000
@@ -300,3 +354,10 @@ def dump_failures(ctx):
     for i, f in enumerate(ctx.failures):
         with open("/tmp/bisim/fails/%s_%03d.json" % (ctx.pid, i), "w") as fh:
             json.dump({"kind": f.kind, "what": f.what, "tags": f.tags, "payload": f.payload}, fh, indent=1, default=str)
+
+
+def tick(ctx, label):
+    import os
+    import time
+    if os.environ.get("IO_DEBUG"):
+        print("  [time] %s: %.1fs" % (label, time.time() - ctx.t0))
